@@ -1237,6 +1237,13 @@ func main() {
 	callers := trustCallers(repo, []string{".", "consensus/crdt", "consensus/raft", "api/rest", "api/ipfsproxy", "pstoremgr", "cmdutils"})
 	cs := extractCfgShape(parseFile(filepath.Join(repo, "consensus/crdt/config.go")))
 	ps := extractPolShape(repo)
+	openEps := map[string]bool{}
+	for k, v := range ipfscluster.DefaultRPCPolicy {
+		if v == ipfscluster.RPCOpen {
+			openEps[k] = true
+		}
+	}
+	direct, openReach := handlerReach(repo, rpcAPI, methods, openEps)
 
 	// --- emit
 	var b strings.Builder
@@ -1304,6 +1311,11 @@ func main() {
 		w("{ dir := %s, fn := %s, key := %s, value := %d }", strconv.Quote(k.site[:strings.LastIndex(k.site, ".")]), strconv.Quote(k.site[strings.LastIndex(k.site, ".")+1:]), strconv.Quote(k.key), k.value)
 	}
 	w("],\n  unknownWrites := %s }\n\n", leanStrList(ps.unknown))
+	w("/-- rpc_api.go: what every handler calls through its receiver (component, method) -/\n")
+	w("def handlerCalls : List Reach := %s\n\n", leanReach(direct))
+	w("/-- the endpoints that are RPCOpen today: what their handlers reach through the methods of *Cluster (transitively):\n")
+	w("    calls on fields of the Cluster, RPC calls made with the serving peer's own credentials, opaque uses -/\n")
+	w("def openReach : List Reach := %s\n\n", leanReach(openReach))
 	w("end CV.C07.Gen\n")
 	fmt.Print(b.String())
 }
